@@ -46,6 +46,8 @@ static char *J_OCT, *J_RSA_PUB, *J_RSA_PRIV, *J_EC_PRIV, *J_EC_PUB, *J_OKP_PRIV,
 static const char J_BAD[] = "{\"kty\":\"RSA\",\"n\":\"AAAA\"}";
 static jwk_set_t *ks_oct, *ks_rsa_priv, *ks_rsa_pub, *ks_ec_priv, *ks_ec_pub, *ks_okp_priv, *ks_okp_pub, *ks_ring;
 static char *T_HS, *T_HS_EXPIRED, *T_HS_BAD, *T_HS384, *T_ES, *T_RS, *T_ED, *T_NONE, *T_HS_KID, *T_PS;
+static char *T_ES_BAD, *T_RS_BAD, *T_PS_BAD, *T_ED_BAD, *T_PS2;
+static jwk_set_t *ks_pss_pub;   /* right length, one signature bit flipped */
 static const char T_MALFORMED[] = "eyJhbGciOiJIUzI1NiJ9.!!!!.AAAA";
 static const time_t T0 = 1700000000;
 
@@ -70,6 +72,19 @@ static char *hmac_ref(const char *hjson, const char *pjson, jwt_alg_t alg, int f
 	char *t = tok_attach(input, mac, l);
 	free(input);
 	return t;
+}
+
+/* the same token with one bit of the decoded signature flipped (length unchanged) */
+static char *flip_sig(const char *tok)
+{
+	rt_t t;
+	rt_parse(tok, &t);
+	t.dec[2][t.declen[2] / 2] ^= 0x10;
+	char *input = strndup(tok, t.input_len);
+	char *r = tok_attach(input, t.dec[2], t.declen[2]);
+	free(input);
+	rt_free(&t);
+	return r;
 }
 
 static void fixtures(void)
@@ -107,6 +122,16 @@ static void fixtures(void)
 	T_RS = sign_ref("{\"alg\":\"RS256\"}", P, "rsa2048a", JWT_ALG_RS256);
 	T_PS = sign_ref("{\"alg\":\"PS256\"}", P, "rsa2048a", JWT_ALG_PS256);
 	T_ED = sign_ref("{\"alg\":\"EdDSA\"}", P, "ed25519a", JWT_ALG_EDDSA);
+	T_ES_BAD = flip_sig(T_ES);
+	T_RS_BAD = flip_sig(T_RS);
+	T_PS2 = sign_ref("{\"alg\":\"PS256\"}", P, "rsa2048b", JWT_ALG_PS256);
+	T_PS_BAD = flip_sig(T_PS2);
+	{
+		char *pj = vk_jwk_text(vk_get("rsa2048b"), 0, "PS256", "p1");
+		ks_pss_pub = jwks_create(pj);
+		free(pj);
+	}
+	T_ED_BAD = flip_sig(T_ED);
 	char *in = tok_signing_input("{\"alg\":\"none\"}", P);
 	T_NONE = malloc(strlen(in) + 2);
 	sprintf(T_NONE, "%s.", in);
@@ -380,25 +405,26 @@ static void sc_check_bad_first(trace_t *t)
 }
 static void sc_check_es(trace_t *t)
 {
-	const char *toks[] = { T_ES, T_HS, T_RS };
-	sc_check(t, jwks_item_get(ks_ec_pub, 0), JWT_ALG_ES256, 0, toks, 3);
+	const char *toks[] = { T_ES, T_HS, T_RS, T_ES_BAD };
+	sc_check(t, jwks_item_get(ks_ec_pub, 0), JWT_ALG_ES256, 0, toks, 4);
 }
 static void sc_check_rs(trace_t *t)
 {
-	const char *toks[] = { T_RS, T_PS, T_ES };
-	sc_check(t, jwks_item_get(ks_rsa_pub, 0), JWT_ALG_RS256, 0, toks, 3);
+	const char *toks[] = { T_RS, T_PS, T_ES, T_RS_BAD };
+	sc_check(t, jwks_item_get(ks_rsa_pub, 0), JWT_ALG_RS256, 0, toks, 4);
 }
 static void sc_check_ps(trace_t *t)
 {
 	const char *toks[] = { T_PS, T_RS };
 	sc_check(t, jwks_item_get(ks_rsa_pub, 0), JWT_ALG_NONE, 0, toks, 1);
-	const jwk_item_t *k = jwks_item_get(ks_rsa_priv, 0);
-	(void)k;
+	/* a PS256 key of its own: valid, one signature bit flipped, another algorithm's token */
+	const char *toks2[] = { T_PS2, T_PS_BAD, T_RS };
+	sc_check(t, jwks_item_get(ks_pss_pub, 0), JWT_ALG_NONE, 0, toks2, 3);
 }
 static void sc_check_ed(trace_t *t)
 {
-	const char *toks[] = { T_ED, T_ES };
-	sc_check(t, jwks_item_get(ks_okp_pub, 0), JWT_ALG_EDDSA, 0, toks, 2);
+	const char *toks[] = { T_ED, T_ES, T_ED_BAD };
+	sc_check(t, jwks_item_get(ks_okp_pub, 0), JWT_ALG_EDDSA, 0, toks, 3);
 }
 static void sc_check_cb(trace_t *t)
 {
